@@ -25,7 +25,6 @@ import (
 	"errors"
 	"fmt"
 	"io"
-	"strings"
 	"text/template"
 	"time"
 
@@ -156,13 +155,13 @@ func (info RecipientInfo) WriteTo(utf8 bool, w io.Writer) error {
 		// But we cannot directly insert CR/LF into Disagnostic-Code so rewrite it.
 		h.Add("Diagnostic-Code", fmt.Sprintf("smtp; %d %d.%d.%d %s",
 			smtpErr.Code, smtpErr.EnhancedCode[0], smtpErr.EnhancedCode[1], smtpErr.EnhancedCode[2],
-			strings.ReplaceAll(strings.ReplaceAll(smtpErr.Message, "\n", " "), "\r", " ")))
+			diagText(smtpErr.Message)))
 	} else if utf8 {
 		// It might contain Unicode, so don't include it if we are not allowed to.
 		// ... I didn't bother implementing mangling logic to remove Unicode
 		// characters.
 		errorDesc := info.DiagnosticCode.Error()
-		errorDesc = strings.ReplaceAll(strings.ReplaceAll(errorDesc, "\n", " "), "\r", " ")
+		errorDesc = diagText(errorDesc)
 
 		h.Add("Diagnostic-Code", "X-Maddy; "+errorDesc)
 	}
@@ -295,4 +294,17 @@ func writeHumanReadablePart(w *textproto.MultipartWriter, mtaInfo ReportingMTAIn
 	}
 
 	return nil
+}
+
+// diagText makes an error text fit for a header field value: CR, LF and all
+// other control characters (a next hop may put anything into its reply) are
+// replaced with spaces, everything else is kept byte for byte.
+func diagText(s string) string {
+	b := []byte(s)
+	for i, ch := range b {
+		if (ch < 0x20 && ch != '\t') || ch == 0x7f {
+			b[i] = ' '
+		}
+	}
+	return string(b)
 }
